@@ -15,7 +15,8 @@ RULE = ('every lattice class found by reflection (Chain, Ladder, NLegLadder, Squ
         'open/periodic/shifted bc x finite/infinite MPS; for each lattice ALL displacement vectors |dx_a| <= Ls[a] and all '
         '(u1,u2) are compared with an integer brute-force enumeration of existing site pairs (multiset equality, one '
         'representative per translation class for infinite MPS); index maps are round-tripped on [-2N, 3N). '
-        'non-trivial = lattice with >=2 dimensions or >=2 sites per cell; distinct = (class, Ls, order, bc, bc_MPS) signature')
+        'non-trivial = lattice with >=2 dimensions or >=2 sites per cell; distinct = (class, Ls, order, bc, bc_MPS) signature'
+        ' Also: MultiSpeciesLattice over multi-site unit cells, helical lattices over all displacements in both branches incl. multi-couplings and the enlarged unit cell, displaced multi-coupling boxes and lat_indices, two-axis mps2lat_values_masked.')
 ASSUMPTIONS = ['`lat.order` (the array defining the snake) is taken as the definition of the MPS index of a site',
                'Euclidean distances from lat.position() with tolerance 1e-8']
 ANCHORS = {'tenpy/models/lattice.py': ['*']}
